@@ -51,6 +51,14 @@ Clause(e) ==
     [] e.op = "eq" ->
          IF e.res # "ok" THEN "C13.Total/eq"
          ELSE IF e.eq_op # 1 \/ e.eq_po # 1 THEN "C13.ParseEqual" ELSE ""
+    [] e.op = "reject" ->         \* obj.<fld> = <invalid value>; raised = 1 iff the assignment raised.  pf / toks / eq_* / rt
+                                  \* describe the object after the exception was caught (eq_* against a copy taken before,
+                                  \* rt = 1 iff it still equals the id parsed from its text)
+         IF ~Valid(e.f) THEN "driver/invalid-id-case"
+         ELSE IF e.raised = 0 THEN ""                      \* silently accepted: outside the statement
+         ELSE IF ~SameId(e.pf, Normalize(e.f)) \/ e.eq_op # 1 \/ e.eq_po # 1 THEN "C13.RejectAtomic"
+         ELSE IF e.toks # PrintId(e.f) THEN "C13.RejectAtomic/print"
+         ELSE IF e.rt # 1 THEN "C13.RejectAtomic/round-trip" ELSE ""
     [] e.op = "fresh" ->          \* same = 1 iff a second parse of the text returned the very object the first parse returned
          IF e.same # 0 THEN "C13.ParseFresh" ELSE ""
     [] e.op = "reprint" ->
